@@ -21,7 +21,8 @@ def py_lev(a, b):
 
 def make_lexstat(rng, need_scorer=False):
     from lingpy import LexStat
-    d = wlgen.gen_wordlist(rng, with_cogid=False, min_langs=2 if need_scorer else 1, max_langs=5, max_concepts=6)
+    many = (not need_scorer) and rng.random() < 0.15          # ten and more doculects now and then (two-digit language ids)
+    d = wlgen.gen_wordlist(rng, with_cogid=False, min_langs=10 if many else (2 if need_scorer else 1), max_langs=12 if many else 5, max_concepts=3 if many else 6)
     lex = LexStat(d)
     if need_scorer:
         random.seed(1234)
@@ -115,6 +116,21 @@ def run_c06(chk):
                         chk.evaluations += 1
                         if lex[idx[i], 'tokens'] == lex[idx[j], 'tokens']:
                             chk.hist['pair of identical forms in one concept (%s)' % method] += 1
+                        if method == 'sca' and dij != 100:
+                            # the SCA distance of the pair computed from the columns the object stores for the two words (class and
+                            # prosodic symbol per segment, weights, prosodic strings) - not through the object's own distance method
+                            from lingpy.algorithm import calign as _calign
+                            ia, ib = idx[i], idx[j]
+                            sa_ = ['%s.%s' % (x, lex._transform[y]) for x, y in zip(lex[ia, 'classes'], lex[ia, 'prostrings'])]
+                            sb_ = ['%s.%s' % (x, lex._transform[y]) for x, y in zip(lex[ib, 'classes'], lex[ib, 'prostrings'])]
+                            try:
+                                own = _calign.align_pair(sa_, sb_, lex[ia, 'weights'], lex[ib, 'weights'], lex[ia, 'prostrings'], lex[ib, 'prostrings'],
+                                                         -2, 0.5, 0.3, lex.rscorer, 'overlap', '_T', 1)[2]
+                            except ZeroDivisionError:
+                                own = dij
+                            if own != dij:
+                                e = ('concept %r: the sca distance of words %d (%s) and %d (%s) is %r through the object, %r from its stored class / prosody / weight columns'
+                                     % (c, ia, lex[ia, 'doculect'], ib, lex[ib, 'doculect'], dij, own))
                         if method == 'edit-dist' and dij != 100:
                             ta, tb = list(lex[idx[i], 'tokens']), list(lex[idx[j], 'tokens'])
                             lev = py_lev(ta, tb) / max(len(ta), len(tb))
